@@ -1,0 +1,85 @@
+//! Verification hooks (cargo feature `__verif`, off by default).
+//!
+//! Every hook is inert unless a verification harness arms it on the *current thread*;
+//! with the feature disabled this module is not compiled at all.
+use std::cell::Cell;
+use std::cell::RefCell;
+use std::time::Duration;
+use std::time::SystemTime;
+
+thread_local! {
+    static VIRTUAL_CLOCK_BASE: Cell<Option<tokio::time::Instant>> = const { Cell::new(None) };
+    static VIRTUAL_WALL_MS: Cell<Option<u64>> = const { Cell::new(None) };
+    static ELECTION_TIMEOUT_SOURCE: RefCell<Option<Box<dyn FnMut(u64, u64) -> u64>>> = const { RefCell::new(None) };
+    static IO_TASK_ON_CALLER_RUNTIME: Cell<bool> = const { Cell::new(false) };
+    static CRASH_POINT: RefCell<Option<Box<dyn FnMut(&'static str)>>> = const { RefCell::new(None) };
+    static YIELD_POINT: RefCell<Option<Box<dyn FnMut(&'static str)>>> = const { RefCell::new(None) };
+}
+
+/// Arm the virtual monotonic clock: `now_ms()` then follows `tokio::time::Instant` (which obeys
+/// `tokio::time::pause`) measured from the moment of arming.
+pub fn arm_virtual_clock() {
+    VIRTUAL_CLOCK_BASE.with(|c| c.set(Some(tokio::time::Instant::now())));
+}
+pub fn disarm_virtual_clock() {
+    VIRTUAL_CLOCK_BASE.with(|c| c.set(None));
+}
+pub fn virtual_now_ms() -> Option<u64> {
+    VIRTUAL_CLOCK_BASE.with(|c| c.get()).map(|b| b.elapsed().as_millis() as u64)
+}
+
+/// Virtual wall clock (milliseconds since UNIX_EPOCH) used by TTL code.
+pub fn set_virtual_wall_ms(ms: Option<u64>) {
+    VIRTUAL_WALL_MS.with(|c| c.set(ms));
+}
+pub fn system_time_now() -> SystemTime {
+    match VIRTUAL_WALL_MS.with(|c| c.get()) {
+        Some(ms) => SystemTime::UNIX_EPOCH + Duration::from_millis(ms),
+        None => SystemTime::now(),
+    }
+}
+
+pub fn set_election_timeout_source(f: Option<Box<dyn FnMut(u64, u64) -> u64>>) {
+    ELECTION_TIMEOUT_SOURCE.with(|c| *c.borrow_mut() = f);
+}
+pub fn election_timeout(
+    min: u64,
+    max: u64,
+) -> Option<u64> {
+    ELECTION_TIMEOUT_SOURCE.with(|c| c.borrow_mut().as_mut().map(|f| f(min, max)))
+}
+
+pub fn set_io_task_on_caller_runtime(on: bool) {
+    IO_TASK_ON_CALLER_RUNTIME.with(|c| c.set(on));
+}
+pub fn io_task_on_caller_runtime() -> bool {
+    IO_TASK_ON_CALLER_RUNTIME.with(|c| c.get())
+}
+
+pub fn set_crash_point(f: Option<Box<dyn FnMut(&'static str)>>) {
+    CRASH_POINT.with(|c| *c.borrow_mut() = f);
+}
+pub fn crash_point(name: &'static str) {
+    CRASH_POINT.with(|c| {
+        if let Some(f) = c.borrow_mut().as_mut() {
+            f(name)
+        }
+    });
+}
+
+pub fn set_yield_point(f: Option<Box<dyn FnMut(&'static str)>>) {
+    YIELD_POINT.with(|c| *c.borrow_mut() = f);
+}
+pub fn yield_point(name: &'static str) {
+    // take the callback out while it runs so that it may re-enter code containing yield points
+    let f = YIELD_POINT.with(|c| c.borrow_mut().take());
+    if let Some(mut f) = f {
+        f(name);
+        YIELD_POINT.with(|c| {
+            let mut slot = c.borrow_mut();
+            if slot.is_none() {
+                *slot = Some(f);
+            }
+        });
+    }
+}
